@@ -40,7 +40,11 @@ theorem set_distances_order_as_modelled :
 
 /-- module constants and numeric literals (source order) of the code `Model/OsuSkill.lean` transcribes -/
 theorem osu_object_literals_as_modelled : osuObjectLiterals = [
+  ("const NORMALIZED_RADIUS", ["50"]),
+  ("const NORMALIZED_DIAMETER", ["Self::NORMALIZED_RADIUS * 2"]),
   ("const MIN_DELTA_TIME", ["25.0"]),
+  ("const MAX_SLIDER_RADIUS", ["Self::NORMALIZED_RADIUS as f32 * 2.4"]),
+  ("const ASSUMED_SLIDER_RADIUS", ["Self::NORMALIZED_RADIUS as f32 * 1.8"]),
   ("opacity_at", ["0.0", "0.0", "1.0", "1.0", "0.0", "1.0", "0.0", "1.0"]),
   ("get_doubletapness", ["0.0", "0.0", "1.0", "1.0", "1.0", "2.0", "1.0", "1.0"]),
   ("set_distances", ["1.0", "2.5", "1.0", "2.5", "0.0"]),
@@ -56,6 +60,8 @@ theorem osu_aim_evaluator_literals_as_modelled : osuAimEvalLiterals = [
   ("const SLIDER_MULTIPLIER", ["1.35"]),
   ("const VELOCITY_CHANGE_MULTIPLIER", ["0.75"]),
   ("const WIGGLE_MULTIPLIER", ["1.02"]),
+  ("const RADIUS", ["OsuDifficultyObject::NORMALIZED_RADIUS"]),
+  ("const DIAMETER", ["OsuDifficultyObject::NORMALIZED_DIAMETER"]),
   ("calculate_initial_strain", ["0", "0.0"]),
   ("strain_value_at", []),
   ("evaluate_diff_of", ["1", "0", "0.0", "0.0", "0.0", "0.0", "0.0", "0.0", "1.25", "1.0", "3.0", "0.08", "0.92", "1.0", "3.0", "0.0", "2", "300.0", "400.0", "2", "3", "1.8", "110.0", "60.0", "3", "1.8", "110.0", "60.0", "0.0", "2.0", "1.25", "2.0"]),
@@ -81,12 +87,16 @@ theorem osu_flashlight_evaluator_literals_as_modelled : osuFlashlightEvalLiteral
 theorem osu_speed_evaluator_literals_as_modelled : osuSpeedEvalLiterals = [
   ("const SKILL_MULTIPLIER", ["1.46"]),
   ("const STRAIN_DECAY_BASE", ["0.3"]),
+  ("const REDUCED_SECTION_COUNT", ["5"]),
   ("const SINGLE_SPACING_THRESHOLD", ["OsuDifficultyObject::NORMALIZED_DIAMETER as f64 * 1.25"]),
   ("const MIN_SPEED_BONUS", ["200.0"]),
   ("const SPEED_BALANCING_FACTOR", ["40.0"]),
   ("const DIST_MULTIPLIER", ["0.9"]),
+  ("const HISTORY_TIME_MAX", ["5 * 1000"]),
+  ("const HISTORY_OBJECTS_MAX", ["32"]),
   ("const RHYTHM_OVERALL_MULTIPLIER", ["0.95"]),
   ("const RHYTHM_RATIO_MULTIPLIER", ["12.0"]),
+  ("const MIN_DELTA_TIME", ["25"]),
   ("calculate_initial_strain", ["0", "0.0"]),
   ("strain_value_at", []),
   ("evaluate_diff_of", ["0.0", "0", "0", "1.0", "0.93", "0.92", "1.0", "0.75", "2.0", "0.0", "0.0", "3.95", "0.0", "1.0", "1000.0"]),
